@@ -43,11 +43,13 @@ def lot_spec(row: int, ts: str, amount: str, price: str, fee: str, supplied: str
         # fee of the acquisition paid in crypto: its fiat value (fee x spot price) is part of the cost basis
         s["crypto_fee"] = H.dec(a / 8)
     if supplied != "absent":
+        # "no-fee-only": the exchange supplies fiat_in_no_fee (different from amount x price) and leaves fiat_in_with_fee empty
         k = Fraction(1) if supplied == "consistent" else Fraction(101, 100)
         no_fee = a * p * k
         if no_fee >= MIN_SUPPLIED:
             s["fiat_in_no_fee"] = H.dec(no_fee)
-            s["fiat_in_with_fee"] = H.dec(no_fee + (Fraction(123, 100) if fee == "fiat" else 0) * k)
+            if supplied != "no-fee-only":
+                s["fiat_in_with_fee"] = H.dec(no_fee + (Fraction(123, 100) if fee == "fiat" else 0) * k)
     return s
 
 
@@ -180,10 +182,11 @@ def cases(tier: str) -> Iterator[Tuple[str, List[Dict[str, Any]], Tuple[str, ...
     lot_fees = ("none", "fiat", "crypto")
     ev_fees = ("none", "crypto", "fiat")
     supplied = ("absent", "consistent", "different")
+    lot_supplied = supplied + ("no-fee-only",)
     classes = ("sell", "fee", "intra")
     one = ("fifo",)
     for (A, a), pl, pe, lf, ls_, cls in itertools.product(
-        [(A, a) for A in amounts for a in fa if a <= F(A)], prices, prices, lot_fees, supplied, classes
+        [(A, a) for A in amounts for a in fa if a <= F(A)], prices, prices, lot_fees, lot_supplied, classes
     ):
         for ef, es_ in itertools.product(ev_fees if cls == "sell" else ("none",), supplied if cls != "intra" else ("absent",)):
             if cls == "intra" and a * 3 > F(A):
